@@ -200,8 +200,9 @@ fn tree_label(t: &[(String, Node)]) -> String {
 pub fn layerings(layer_bases: &[usize], lower_paths: &[String], full: bool) -> Vec<InitSpec> {
     let n = layer_bases.len();
     let mut out = vec![];
-    // per-layer candidate trees; file bytes identify the layer: upper "u", lower layers "l", "m", "n"
-    let bytes: [&[u8]; 4] = [b"u", b"l", b"m", b"n"];
+    // per-layer candidate trees; file bytes identify the layer, and the deeper layers also differ in
+    // length (metadata must come from the layer that serves the bytes): "u", "l", "mm", "nnn"
+    let bytes: [&[u8]; 4] = [b"u", b"l", b"mm", b"nnn"];
     let mut cands: Vec<Vec<Vec<(String, Node)>>> = vec![];
     for i in 0..n {
         let all = trees_over(lower_paths, bytes[i.min(3)]);
